@@ -16,6 +16,15 @@ import (
 
 func (c *Core) VerifExpiration() *ExpirationManager { return c.expiration }
 
+// VerifSetStepDownSleep shortens the pause a node makes after sys/step-down before it
+// contends for the HA lock again (a timing constant; the repository's own cluster tests
+// change it the same way).  Returns the previous value.
+func VerifSetStepDownSleep(d time.Duration) time.Duration {
+	old := manualStepDownSleepPeriod
+	manualStepDownSleepPeriod = d
+	return old
+}
+
 // VerifBarriers returns the root barrier and every namespace barrier known to
 // the seal manager, keyed by namespace path ("" = root).
 func (c *Core) VerifBarriers() map[string]barrier.SecurityBarrier {
